@@ -7,6 +7,7 @@ COQ_IMPORTS = ['Model.DFA', 'Model.NFA', 'Model.Iso', 'Judge.C20_judge']
 RULE = ('ordered pairs of DFAs over a common alphabet: all pairs of the 16 two-state one-symbol DFAs and of one-state DFAs, a seeded sample of pairs from the 2x2 and 3x1 spaces; random DFAs <=6 states '
         'paired with a renamed/permuted copy, a copy with one transition or one accepting bit changed, a copy with an extra unreachable state, a copy with a duplicated (equivalent) state, or an unrelated DFA; '
         'each under 4 (quick) / 16 (thorough) PYTHONHASHSEED values with a 3 s limit per call. Non-trivial = both automata have >= 2 reachable states; distinct by the pair of texts.')
+RULE += ' Added after the seeded rounds: unusual state names incl. the empty name, equivalent non-isomorphic pairs with the same number of reachable states.'
 CODES = {2: 'dfa_isomorphic verdict differs from the proved model (or raised / timed out)', 3: 'dfa_isomorphic1 verdict differs from the proved model (or raised / timed out)',
          8: 'internal: the two models disagree (machinery)', 9: 'generated DFA invalid (harness)'}
 ASSUMPTIONS = ['both DFAs are valid and have equal alphabets (asserted by the routines)']
